@@ -190,6 +190,15 @@ func (sh *SessionHandler) processFundAccountPayment(pt rhp3.HostPriceTable, s *r
 		return types.ZeroCurrency, types.ZeroCurrency, err
 	}
 
+	// the payment must at least cover the cost of the RPC; the remainder funds
+	// the account
+	fundAmount, underflow = totalAmount.SubWithUnderflow(pt.FundAccountCost)
+	if underflow {
+		err = fmt.Errorf("invalid payment revision: payment %v does not cover the fund account cost %v", totalAmount, pt.FundAccountCost)
+		s.WriteResponseErr(err)
+		return types.ZeroCurrency, types.ZeroCurrency, err
+	}
+
 	// validate that new revision
 	if err := rhp.ValidatePaymentRevision(current, revision, totalAmount); err != nil {
 		err = fmt.Errorf("invalid payment revision: %w", err)
@@ -218,7 +227,7 @@ func (sh *SessionHandler) processFundAccountPayment(pt rhp3.HostPriceTable, s *r
 			RenterSignature: req.Signature,
 		},
 		Cost:       pt.FundAccountCost,
-		Amount:     totalAmount.Sub(pt.FundAccountCost),
+		Amount:     fundAmount,
 		Expiration: time.Now().Add(settings.EphemeralAccountExpiry),
 	}
 	// credit the account with the deposit
